@@ -35,7 +35,7 @@ theorem setupChain_clean (P : Project) (g : G) (cfg : Cfg) (s : Sess) (t : TaskS
   have e3 : setupImpl P g cfg s t "persist" = .none := by
     unfold setupImpl
     simp only [show ("persist" == "skipping") = false by decide, show ("persist" == "persist") = true by decide, hp,
-      Bool.false_eq_true, if_false, if_true]
+      Bool.false_and, Bool.false_eq_true, if_false, if_true]
   have e4 : setupImpl P g cfg s t "execute" =
       (match scan P g s.w t.id cfg.force (neighbours g t.id) with
         | .missing => .error
